@@ -79,7 +79,7 @@ Theorem balanced_tree_rooted_ok d ls : 1 <= d ->
             balanced true d t = true /\ leaves t = map tip_name (seq 0 (2 ^ d)).
 Proof.
   intros Hd. destruct d as [|d]; [lia|].
-  unfold balanced_tree. cbn [Nat.ltb Nat.leb].
+  unfold balanced_tree. cbn [Nat.ltb Nat.leb negb]. rewrite andb_false_r.
   pose proof (bal_rec_spec d ls 0) as H.
   destruct (bal_rec (S d) ls 0) as [[sl ls'] id']. cbn [fst].
   destruct H as [[e1 [c1 [e2 [c2 [-> [W1 [W2 [B1 [B2 [P1 P2]]]]]]]]]] [T I]].
@@ -102,7 +102,7 @@ Theorem balanced_tree_unrooted_ok d ls : 2 <= d ->
             balanced false d t = true /\ leaves t = map tip_name (seq 0 (2 ^ d)).
 Proof.
   intros Hd. destruct d as [|[|d]]; try lia.
-  unfold balanced_tree. cbn [Nat.ltb Nat.leb].
+  unfold balanced_tree. cbn [Nat.ltb Nat.leb negb andb].
   rewrite bal_rec_S. cbv zeta.
   pose proof (bal_rec_spec d (tl (tl ls)) 0) as H1.
   destruct (bal_rec (S d) (tl (tl ls)) 0) as [[s1 ls3] id1].
@@ -145,9 +145,8 @@ Qed.
 Theorem balanced_tree_small rooted ls : exists msg, balanced_tree 0 rooted ls = GErr msg.
 Proof. unfold balanced_tree. simpl. eauto. Qed.
 
-(** depth 1 unrooted: UnRoot joins the two tips by one branch; the root is the tip Tip1 *)
-Theorem balanced_depth1_unrooted ls :
-  exists e, balanced_tree 1 false ls = GOk (UNode (tip_name 1) [] [Some (e, UNode (tip_name 0) [] [None])]).
+(** depth 1 unrooted (two tips) is rejected *)
+Theorem balanced_depth1_unrooted ls : exists msg, balanced_tree 1 false ls = GErr msg.
 Proof. eexists. reflexivity. Qed.
 
 (** ** StarTree *)
